@@ -47,6 +47,7 @@ func init() {
 			{ID: "C19.R6", Floor: 3, Run: noWritesThroughResources, Text: "resource objects are only stored and handed out: no method of Resources calls a reflect mutator or stores through a resource pointer"},
 			{ID: "C19.R7", Floor: 10, Run: callerSlicesNotMutated, Text: "caller-owned slices are only read: no exported function assigns an element of, sorts, reverses, compacts or copies into a slice parameter"},
 			{ID: "C19.R8", Floor: 1, Run: compileKeyedByWorld, Text: "the compilation of a generic filter is keyed by world (= C18.R23): using a filter on one world does not change what it selects on another"},
+			{ID: "C19.R9", Floor: 10, Run: compiledFiltersFresh, Text: "handed-out filters do not point into re-compiled state (= C18.R24): using a generic filter on a second world does not change the selection of a query open on the first"},
 			{ID: "C19.FX", Floor: 1, Run: c19fixture, Text: "fixture control: on checker/testdata/fixture R1/R2 report exactly the bad* functions for them"},
 		},
 	})
